@@ -206,8 +206,24 @@ def check_consistency(rec, idnt, case, init=None, tap_entry=None,
     b = vals["baseline"]
     scale = max(float(np.max(np.abs(want - b))), abs(b), 1e-300)
     dev = float(np.max(np.abs(fit[seg] - want))) if seg.any() else 0.0
-    rec.maximum(P + "fit column vs model(reported params), rel", dev / scale)
-    rec.check(dev <= 1e-12 * scale, P + "fit-column/not-model-of-reported",
+    floor = 0.0
+    if mk == "power_layer_clifford_2009":
+        # E* = E_L + (E_S - E_L) * frac cancels catastrophically when the
+        # optimiser drives E_S towards 0: round-off of order eps * E_L-force
+        dmax = max(float(np.max(cpk - k * x[seg])), 0.0) if seg.any() else 0.0
+        floor = 64 * EPS * 4 / 3 * abs(vals["E_L"]) * np.sqrt(vals["R"]) \
+            * dmax ** 1.5
+    amp = 1.0
+    if "alpha" in vals and vals["alpha"]:
+        # tan(alpha) near 90 degrees amplifies the last-bit difference
+        # between alpha*pi/180 and radians(alpha): condition number of tan
+        th = np.radians(vals["alpha"])
+        t = np.tan(th)
+        amp = 1.0 + abs(th * (1 + t * t) / t)
+    rec.maximum(P + "fit column vs model(reported params), rel",
+                max(dev - floor, 0.0) / scale / amp)
+    rec.check(dev <= 1e-12 * amp * scale + floor,
+              P + "fit-column/not-model-of-reported",
               "max |fit - model(reported params)| = %.3e (scale %.3e)"
               % (dev, scale), case)
     rec.check(np.all(np.isnan(fit[~seg])) and np.all(np.isnan(res[~seg])),
@@ -262,10 +278,15 @@ def check_consistency(rec, idnt, case, init=None, tap_entry=None,
                       "fixed %s: initial %r, reported %r"
                       % (n, v0, par.value), case)
         else:
+            # bounds are the caller's (contact point: measured units)
             lo, hi = init[n].min, init[n].max
-            v = par.value * (k if n == "contact_point" else 1)
+            v = par.value
+            slack = 4 * EPS * abs(v)
             rec.event("varied parameters judged")
-            rec.check(lo <= v <= hi, P + "params/out-of-bounds",
+            if np.isfinite(lo) or np.isfinite(hi):
+                rec.event("varied parameters with finite bounds judged")
+            rec.check(lo - slack <= v <= hi + slack,
+                      P + "params/out-of-bounds",
                       "%s = %r outside [%r, %r]" % (n, v, lo, hi), case)
     return True
 
